@@ -30,7 +30,7 @@ def life_cycle(rng, sid, small):
         # session-specific random contents: with identity payloads two sessions of equal k hold the same symbols
         # and a symbol leaking from one session into another would go unseen
         p = P(p.codec, p.k, p.r, m=p.m, N1=p.N1, seed=p.seed, length=rng.choice(list(range(1, 41)) + [64, 100, 255, 1000]),
-              payload="rnd", align=rng.choice([0, 0, 1, 3]))
+              payload="rnd", align=gen.pick_align(rng))
     if role == "enc":
         return _verbose(rng, gen.encode_exec(p, slots=rng.choice(["buf", "null"]), s=sid, both=rng.random() < 0.1))
     keep = rng.uniform(0.5, 1.0)
